@@ -1,4 +1,4 @@
-\* devAttachNoEdge2
+\* negative control: must violate Inv_W3
 SPECIFICATION Spec
 CONSTANTS
   Cand <- Cand3
